@@ -37,7 +37,17 @@ def filters_for(tier, uname="U1"):
         else:
             singles = [[f] for f in Q.W_single(tier)]
             multi = [fl for fl in Q.W_multi(tier) if len(fl) <= 5]
-            _F[(tier, uname)] = singles + multi
+            # explicit small limits: completeness is demanded whenever the number of matches does not exceed the limit
+            limited = []
+            for f in Q.W_single("quick")[:: (7 if tier == "quick" else 3)]:
+                for lim in (1, 2, 5):
+                    limited.append([dict(f, limit=lim)])
+            fo = Q.field_options()
+            for f in ({"#e": ["a"], "#p": fo["#p"][0]}, {"#e": ["a", "ab"], "#t": ["it's"]}, {"ids": fo["ids"][4], "until": 20}, {"ids": fo["ids"][2], "since": 15},
+                      {"kinds": [1], "#e": ["a"]}, {"authors": fo["authors"][2], "#e": ["b", "a"]}):
+                for lim in (1, 2, 3):
+                    limited.append([dict(f, limit=lim)])
+            _F[(tier, uname)] = singles + multi + limited
     return _F[(tier, uname)]
 
 
@@ -50,9 +60,20 @@ def judge(store_events, filters, evs, eose, notices, closed):
     got = {}
     for e in evs:
         got[e["id"]] = got.get(e["id"], 0) + 1
+    # a filter is judged for completeness only if its matches do not exceed its limit
+    def bare(f):
+        return {k: v for k, v in f.items() if k != "limit"}
+
+    active = []
+    for f in filters:
+        lim = f.get("limit")
+        if lim is not None and sum(1 for e in store_events if Q.loose_matches(bare(f), e)) > lim:
+            continue
+        active.append(bare(f))
+    allf = [bare(f) for f in filters]
     for ev in store_events:
-        k_strict = sum(1 for f in filters if Q.strict_matches(f, ev))
-        k_loose = sum(1 for f in filters if Q.loose_matches(f, ev))
+        k_strict = sum(1 for f in active if Q.strict_matches(f, ev))
+        k_loose = sum(1 for f in allf if Q.loose_matches(f, ev))
         n = got.get(ev["id"], 0)
         if k_strict >= 1 and n < 1:
             v.append(("complete", "missing:" + ev["id"][:8], "matching event %s (t=%d kind=%d) not delivered" % (ev["id"][:8], ev["created_at"], ev["kind"])))
